@@ -14,7 +14,8 @@ EXPLANATION = (
     "configured cap on the positive side, never a smaller value (a necessary condition for monotone and "
     "capped-afterwards); (CAP) when max_interval is Some(m) the non-jittered result passes through min(_, m); "
     "(ATTEMPT) the reconnect service passes its own attempt counter to these functions."
-    " (PRECISION) no whole-unit as_*/from_* conversion in the backoff computation; (CAP-ORIGIN) the ReconnectPolicy constructors hand the caller's initial interval and cap to the backoff unchanged.")
+    " (PRECISION) no whole-unit as_*/from_* conversion in the backoff computation; (CAP-ORIGIN) the ReconnectPolicy constructors hand the caller's initial interval and cap to the backoff unchanged."
+    ' (SATURATE, match form) on the failure edge of the float conversion every value other than Duration::MAX lies behind the false edge of the sign test.')
 RULE = "one obligation per reachable call/assert/cast in the backoff call graph, per conversion fallback, per cap site"
 TRUSTED = ["std Duration::try_from_secs_f64 / f64::powi are total", "rand::Rng::random_range on a non-empty inclusive range"]
 ASSUMPTIONS = ["randomization factor is clamped to [0,1] at construction (checked: C14.FACTOR)"]
